@@ -309,11 +309,12 @@ var specs = map[string]buildSpec{
 // ---------- running workers ----------
 
 type stage struct {
-	config  string
-	mode    string
-	workers int // 0 = all
-	env     []string
-	timeout time.Duration
+	thoroughOnly bool // stage runs in the thorough tier only
+	config       string
+	mode         string
+	workers      int // 0 = all
+	env          []string
+	timeout      time.Duration
 }
 
 type workerOutcome struct {
@@ -687,6 +688,9 @@ func runProperty(rc *runCfg, pl *plan) int {
 		}
 	} else {
 		for _, st := range pl.stages {
+			if st.thoroughOnly && rc.tier != "thorough" {
+				continue
+			}
 			outs, err := runStage(rc, st)
 			if err != nil {
 				fatal2("%v", err)
